@@ -37,6 +37,9 @@ pub struct FarmSim {
     pub penalty_bp: u64,
     pub expiration: u64,
     pub max_farms: u32,
+    /// configured range of unlocking durations for NEW positions (existing ones keep theirs)
+    pub min_dur: u64,
+    pub max_dur: u64,
     pub steps: usize,
     pub labels: BTreeMap<String, String>,
     /// (amount, duration, weight) of freshly added weight, for the pairwise monotonicity check
@@ -89,6 +92,8 @@ impl FarmSim {
             penalty_bp: cfg.penalty_bp.min(10_000) as u64,
             expiration: MONTH,
             max_farms: cfg.max_farms.clamp(1, 3) as u32,
+            min_dur: DAY,
+            max_dur: YEAR,
             w,
             l: Ledger::default(),
             cfg: cfg.clone(),
